@@ -36,7 +36,7 @@ FOCUS = {
     "C03": ["create", "update", "delete", "deleteWhere", "callerError"],
     "C04": ["create", "update", "delete", "deleteWhere", "createTeam", "updateTeam", "deleteTeam", "callerError"],
     "C05": ["create", "delete", "createTeam", "deleteTeam", "addLinks", "removeLinks", "setLinks", "addLink", "removeLink", "rcInc", "rcDec", "rcSet", "callerError"],
-    "C06": None, "C07": None,
+    "C06": None, "C07": None, "C08": ["create", "update", "delete", "deleteWhere", "createTeam", "updateTeam", "deleteTeam", "callerError"],
     "C15": None,
     "C16": ["create", "update", "delete", "deleteWhere", "createTeam", "deleteTeam", "callerError"],
 }
@@ -72,7 +72,7 @@ def owners_of(reject):
                     "storage": {"C07", "C03"}, "veto": {"C07"}, "caller": {"C07"}}.get(a, {"core"})
     elif logged["res"] == "fail" and logged.get("cls", "").startswith("lost:"):
         out.add("C07")
-    elif not differs:
+    elif not differs and reject.get("events") != "differ":
         out.add("core")
     for f in differs:
         out |= set(FIELD_OWNER.get(f, "core").split(","))
@@ -80,10 +80,15 @@ def owners_of(reject):
         out.add("C06")
     if logged["res"] == "fail" and differs:
         out.add("C07")          # a rejected call (rolled-back transaction) left something behind
+    if reject.get("events") == "differ":
+        out.add("C08")          # the listeners were not handed exactly what the committed transaction produced
+        out.discard("core")
+        if logged["res"] == "fail":
+            out.add("C07")
     return out
 
 
-REJ = re.compile(r'<<\s*"REJECT",\s*(\d+),\s*"(\w+)",\s*"model",\s*(\[.*?\]),\s*"logged",\s*(\[.*?\]),\s*"extra",\s*(<<.*?>>),\s*"state-differs-in",\s*(\{.*?\})\s*>>', re.S)
+REJ = re.compile(r'<<\s*"REJECT",\s*(\d+),\s*"(\w+)",\s*"model",\s*(\[.*?\]),\s*"logged",\s*(\[.*?\]),\s*"extra",\s*(<<.*?>>),\s*"state-differs-in",\s*(\{.*?\}),\s*"events",\s*"(\w+)"\s*>>', re.S)
 
 
 def tla_record(s):
@@ -136,7 +141,7 @@ def validate(ctx, bindir, prop, fam, tokens, traces, txs, seed, tag="", sys=True
         m = REJ.search(out)
         if m:
             r.update(at=int(m.group(1)), op=m.group(2), model=tla_record(m.group(3)), logged=tla_record(m.group(4)),
-                     extra=re.findall(r'"((?:[^"\\]|\\.)*)"', m.group(5)), differs=re.findall(r'"(\w+)"', m.group(6)))
+                     extra=re.findall(r'"((?:[^"\\]|\\.)*)"', m.group(5)), differs=re.findall(r'"(\w+)"', m.group(6)), events=m.group(7))
         return r
 
     v = judge(trace, "")
@@ -157,6 +162,8 @@ def validate(ctx, bindir, prop, fam, tokens, traces, txs, seed, tag="", sys=True
         what = "[%s] line %d: %s %s -- implementation: %s %s ret=%s; specification: %s %s ret=%s; state differs in %s%s" % (
             fam, v["at"], v["op"], json.dumps(line.get("a"))[:260], v["logged"].get("res"), v["logged"].get("cls", ""), v["logged"].get("ret", ""),
             v["model"].get("res"), ",".join(v["model"].get("app", [])), v["model"].get("ret", ""), v["differs"] or "nothing", (" extra: %s" % v["extra"][:3]) if v["extra"] else "")
+        if v.get("events") == "differ":
+            what += "; events delivered: %s" % json.dumps(line.get("evs"))[:300]
         # keep the failing execution (from its reset line) as the replay file
         start = max([i for i in range(v["at"]) if '"op":"reset"' in all_lines[i]] + [-1]) + 1
         if prop in own or "core" in own:
